@@ -7,7 +7,10 @@ value (prefix tokens):   N None, T/F, I<int>, S<text>, M the constant MISSING, M
   a: Any | Missing, b: Sequence[Any] | Missing (a tuple or MISSING), c: int | Missing.
 observation: `<result tree> | is= not= when= bool= eqL= eqR= | attr=`; in the tree an instance of Missing
   prints `M` when it `is MISSING`, `m` otherwise; eqL is `MISSING == r`, eqR is `r == MISSING`;
-  attr = outcome of get/set/del of an attribute when r is an instance of Missing.
+  attr = outcome of get/set/del of an attribute when r is an instance of Missing, followed by
+  mod=<assignment of __class__ (to a class of the same empty layout), __dict__, __slots__, __doc__, _instance, __bool__ and
+  deletion of __class__, __doc__, __slots__: R = rejected with AttributeError/TypeError> intact=<the object is still the falsy
+  Missing singleton after each probe>; anything a mutated library lets through is undone by the harness.
 """
 from __future__ import annotations
 
@@ -15,17 +18,6 @@ import copy as _copy
 import pickle as _pickle
 
 from harness import core, vloop
-
-# Workaround (reported): harness/vloop.py freezes `time.monotonic` process-wide; multiprocessing's
-# `connection.wait(timeout=0)` then never returns and the Pool of core.run_real_many never exits.
-import types as _types
-import multiprocessing.connection as _mpc
-import multiprocessing.pool as _mpp
-import time as _time_mod
-
-_REAL = _types.SimpleNamespace(monotonic=vloop.real_monotonic, sleep=vloop._REAL_SLEEP, time=_time_mod.time)
-_mpc.time = _REAL
-_mpp.time = _REAL
 
 PID = "C20"
 LEAN_COMPONENT = "missing"
@@ -308,6 +300,58 @@ def bit(b) -> str:
     return "1" if b is True else "0" if b is False else "?"
 
 
+class _EmptyLayout:
+    # same (empty) instance layout as Missing, so CPython itself would permit `__class__` assignment
+    __slots__ = ()
+
+
+SPECIAL_SETS = ["__class__", "__dict__", "__slots__", "__doc__", "_instance", "__bool__"]
+SPECIAL_DELS = ["__class__", "__doc__", "__slots__"]
+
+
+def probe_special(r) -> str:
+    """Try to modify an instance of Missing through special attribute names.  `R` = rejected with
+    AttributeError / TypeError.  Whatever a (mutated) library lets through is undone before returning,
+    so later cases in the same process see the original object; `intact` is taken before the undo."""
+    original = type(r)
+    values = {"__class__": _EmptyLayout, "__dict__": {}, "__slots__": (), "__doc__": "x", "_instance": None,
+              "__bool__": lambda: True}
+    res = []
+
+    def restore():
+        if type(r) is not original:
+            try:
+                object.__setattr__(r, "__class__", original)
+            except Exception:  # noqa: BLE001
+                pass
+
+    intact = True
+    for kind, names in (("set", SPECIAL_SETS), ("del", SPECIAL_DELS)):
+        for name in names:
+            try:
+                if kind == "set":
+                    setattr(r, name, values[name])
+                else:
+                    delattr(r, name)
+                res.append("ok")
+            except (AttributeError, TypeError):
+                res.append("R")
+            except Exception as exc:  # noqa: BLE001
+                res.append("X" + exc_enum(exc))
+            try:
+                same = type(r) is original and (bool(r) is False) and (r is haiway.MISSING or original is not haiway.Missing)
+            except Exception:  # noqa: BLE001
+                same = False
+            intact = intact and same
+            restore()
+            if res[-1] == "ok" and kind == "set" and name != "__class__":
+                try:
+                    object.__delattr__(r, name)
+                except Exception:  # noqa: BLE001
+                    pass
+    return f"mod={','.join(res)} intact={'1' if intact else '0'}"
+
+
 def observe(r) -> str:
     from haiway import is_missing, not_missing, when_missing
 
@@ -323,7 +367,7 @@ def observe(r) -> str:
                 probes.append("AE")
             except Exception as exc:  # noqa: BLE001
                 probes.append("X" + exc_enum(exc))
-        attr = ",".join(probes)
+        attr = ",".join(probes) + " " + probe_special(r)
     else:
         attr = "-"
     return (f"{observe_tree(r)} | is={bit(is_missing(r))} not={bit(not_missing(r))} when={when} bool={bit(bool(r))} "
@@ -453,10 +497,21 @@ def monitor(case: str, out: str) -> list[str]:
             fails.append("missing.truthy")
         if p["eqL"] != "1" or p["eqR"] != "1":
             fails.append("missing.not-equal-to-itself")
-        a = p["attr"].split(",")
+        af = p["attr"].split()
+        a = af[0].split(",") if af else []
         for name, res in zip(("get", "set", "del"), a + ["?"] * 3):
             if res != "AE":
                 fails.append(f"missing.attribute-{name}-not-rejected")
+        extra = dict(x.split("=", 1) for x in af[1:] if "=" in x)
+        mods = extra.get("mod", "").split(",")
+        if len(mods) != len(SPECIAL_SETS) + len(SPECIAL_DELS):
+            fails.append("missing.no-observation")
+        else:
+            for name, res in zip([f"set:{n}" for n in SPECIAL_SETS] + [f"del:{n}" for n in SPECIAL_DELS], mods):
+                if res != "R":
+                    fails.append(f"missing.modification-not-rejected.{name}")
+        if extra.get("intact") != "1":
+            fails.append("missing.modified")
     elif top != "m":
         if p["is"] != "0":
             fails.append("missing.predicate.is_missing")
